@@ -126,6 +126,57 @@ def run(ctx):
                               % ('' if comp else 'un'), ffw.where, facts=Facts(known_at(f, cs)))
                 ob.require(T.raw_op('VALID_SK', keyb) in closure(f) or not normal_leaves(v),
                            'from_wif builds the key through the validating constructor', ffw.where)
+            # a payload of any other size is refused ("byte strings of the wrong length are rejected wherever a key can be
+            # constructed"): with the payload's length L unknown, the validating constructor accepts exactly 32 key bytes, so
+            # every non-raising exit pins L through the slice it hands on - only the standard size may be possible
+            for comp, n in ((True, 34), (False, 33)):
+                summ = dict(X.DEFAULT_SUMMARIES)
+                D2 = S('decoded', type='bytes')
+                summ['helper.decode_base58_checksum'] = lambda ev_, fi, env, facts, D2=D2: (D2, facts)
+                ev = Evaluator(p, be, summaries=summ)
+                s = S('wif_str', type='str')
+                first = T.getitem(s, T.const(0))
+                cond = T.FALSE
+                for ch in sorted(lits):
+                    cond = T.or_(cond, T.eq(T.const(ch), first))
+                v, f = ev.call_function('keys.PrivateKey.from_wif', [T.clsref(PRIVKEY), s], facts=Facts().add(cond if comp else T.not_(cond)))
+
+                def slice_len(t_, L):
+                    if t_ == D2:
+                        return L
+                    if T.is_op(t_, 'SLICE'):
+                        inner = slice_len(t_[2], L)
+                        if inner is None:
+                            return None
+                        # bounds may be written with the payload's length (end = len(payload) - 1)
+                        lo, hi = (T.subst(b_, {T.len_(D2): T.const(L)}) for b_ in (t_[3], t_[4]))
+                        if not (T.is_const(lo) and T.is_const(hi)):
+                            return None
+                        return len(range(inner)[slice(lo[1], hi[1])])
+                    if T.is_op(t_, 'BYTES') and len(t_) == 3:
+                        return slice_len(t_[2], L)
+                    return None
+                for cs, leaf in normal_leaves(v):
+                    known = known_at(f, cs)
+                    subj = [k[2] for k in known if T.is_op(k, 'VALID_SK')]
+                    if not subj:
+                        ob.require(False, 'from_wif(%scompressed) can return a key that did not pass the validating constructor'
+                                   % ('' if comp else 'un'), ffw.where)
+                        continue
+                    sizes = None
+                    for x_ in subj:
+                        ok_l = {L for L in range(0, 96) if slice_len(x_, L) == 32}
+                        if all(slice_len(x_, L) is None for L in (0, 33, 34, 40)):
+                            continue
+                        sizes = ok_l if sizes is None else (sizes & ok_l)
+                    if sizes is None:
+                        ob.undecided('from_wif: the bytes handed to the constructor are not a slice of the decoded payload: %s'
+                                     % [T.show(x_, maxdepth=3) for x_ in subj], ffw.where)
+                        continue
+                    extra = sorted(sizes - {n})
+                    ob.require(not extra, 'from_wif(%scompressed) accepts a payload of %s bytes (standard: %d): surplus bytes are '
+                               'cut off instead of the string being rejected' % ('' if comp else 'un', extra[:6], n), ffw.where,
+                               expected='only a %d-byte payload can yield a key' % n, found=[T.show(x_, maxdepth=3) for x_ in subj])
             # the decoder in front is the checksummed one
             ev = Evaluator(p, be)
             ev.call_function('keys.PrivateKey.from_wif', [T.clsref(PRIVKEY), S('w', type='str')])
